@@ -28,7 +28,9 @@ import (
 	"fmt"
 	"math"
 	"math/rand"
+	"strconv"
 	"strings"
+	"time"
 
 	"github.com/hydraide/hydraide/app/core/hydra/swamp"
 	"github.com/hydraide/hydraide/app/core/hydra/swamp/treasure"
@@ -735,17 +737,28 @@ func c13Gen(rng *rand.Rand, tier string, w *bufio.Writer) {
 		"ap 81a178d07f - inc:78:d001",                                          // int8 wraps, stays int8
 		"ap 81a178ccff - inc:78:cc01",                                          // uint8 wraps
 		"ap 81a166ca7f7fffff - inc:66:ca7f7fffff",                              // float32 overflow → +Inf
-		"ap 81a166cb7ff0000000000000 - inc:66:cbfff0000000000000",              // Inf + -Inf
+		"apn 81a166cb7ff0000000000000 - inc:66:cbfff0000000000000",             // Inf + -Inf = NaN (payload: platform)
+		"apn 81a166cb7ff8000000000001 - inc:66:cb3ff0000000000000",             // NaN + 1
+		"apn 81a166ca3f800000 - inc:66:cb7ff80000deadbeef",                     // float32 + NaN delta
 		"ap 81a178d3800000000000000001 gt:78:d3000000000000000a set:7a:01",     // MinInt64+1 > 10 ? no
 		"ap 81a178d3800000000000000001 lt:78:d3000000000000000a set:7a:01",     // MinInt64+1 < 10 ? yes
 		"ap 81a178cf8000000000000000 gt:78:cf0000000000000001 set:7a:01",       // 2^63 > 1 (uint64) ? yes
 		"ap 81a178cfffffffffffffffff le:78:05 set:7a:01",                       // MaxUint64 <= 5 ? no
 		"ap 81a17801 - set:78:d0cc inc:78:d001",                                // SET int8 then INC: stays int8
+		"ap 81a17801 - set:78:cd0100 inc:78:01",                                // SET uint16 256 then INC 1: stays uint16
 		"ap 81a178ca3f800000 - inc:78:ca3f800000 inc:78:cb3ff0000000000000",    // float32 INC twice: stays float32
 		"ap 81a178ccfe - inc:78:01 inc:78:01",                                  // uint8 wraps twice, stays uint8
 		"ap 81a17493010203 - rmat:745b2d315d:",                                 // t[-1]
 		"ap 81a17493010203 - rmat:745b2d345d:",                                 // t[-4] out of range
 		"ap 81a17493010203 - pre:745b5d:09 app:745b5d:0a rmval:74:02",          //
+		"ap 81a174919101 - rmval:74:9101",                                      // REMOVE_VAL of a container element parsed from the body
+		"ap 81a17492810a0b9101 - rmval:74:de00010a0b",                         // body with a non-string key: rejected
+		"ap 81a1749281a16101a161 - rmval:74:de0001a16101",                      // container value with a non-minimal header
+		"ap 81a17490 - app:745b5d:dc000101 rmval:74:9101",                      // spliced non-minimal array, removed by its canonical form
+		"ap 81a17490 - app:745b5d:9101 rmval:74:9101",
+		"ap 80 - set:78:81a16101 set:782e61:02",                                // into a value SET earlier in the same patch
+		"ap 80 - app:745b5d:9101 app:745b305d5b5d:02",                          // into an array APPENDed earlier
+		"ap 80 - merge:6d:81a16181a16201 inc:6d2e612e62:01",                    // into a MERGEd field value
 		"ap 81a16d81a16101 - merge:6d:82a16102a16203",                          // MERGE overrides a, adds b
 		"ap 80 - set:612e622e63:01",                                            // auto-create a.b.c
 		"ap 80 - app:612e625b5d:01",                                            // auto-create a.b[]
@@ -758,27 +771,38 @@ func c13Gen(rng *rand.Rand, tier string, w *bufio.Writer) {
 		"parse -",
 		"parse 81d9206161616161616161616161616161616161616161616161616161616161616101", // str8 key of length 32
 		// PatchFields: every status of classifyPatchError and of the content / prefix checks
-		"pf absent 1 - - set:61:01",                    // CREATED from the empty-map seed
-		"pf absent 0 - - set:61:01",                    // KEY_NOT_FOUND
-		"pf absent 1 81a17801 - inc:78:02",             // CREATED from a seed
-		"pf absent 1 c1 - set:61:01",                   // invalid seed → TYPE_MISMATCH
-		"pf absent 1 01 - set:61:01",                   // non-map seed: SET on a leaf root → TYPE_MISMATCH
-		"pf b:c70081a17801 0 - - set:79:02",            // PATCHED
-		"pf b:c70081a17801 1 c1 - set:79:02",           // existing key, invalid seed still rejected
-		"pf b:c70081a17801 0 - eq:78:02 set:79:02",     // CONDITION_NOT_MET
-		"pf b:c70081a17801 0 - - inc:78:a161",          // TYPE_MISMATCH
-		"pf b:c70081a17801 0 - - set:782e:01",          // malformed path → PATH_INVALID
-		"pf b:c70081a17801 0 - - set:79:",              // ErrInvalidOp (empty value) → PATH_INVALID
-		"pf b:c70081a17801 0 - - unk:79:01",            // unknown op kind → PATH_INVALID
-		"pf b:c70081a17801 0 - unk:78:01 set:79:01",    // unknown condition op → PATH_INVALID
-		"pf b:c7008101a17801 0 - - set:79:02",          // non-string key body → ENCODING_NOT_SUPPORTED
-		"pf b:c70081a178 0 - - set:79:02",              // truncated body → ENCODING_NOT_SUPPORTED
-		"pf b:81a17801 0 - - set:79:02",                // no magic prefix → ENCODING_NOT_SUPPORTED
-		"pf b:c7 0 - - set:79:02",                      // one byte only
-		"pf b:c70181a17801 0 - - set:79:02",            // wrong second prefix byte
-		"pf other 0 - - set:79:02",                     // not a ByteArray → TYPE_MISMATCH
-		"pf b:c70081a17801 0 - - set:79:c1",            // malformed value
-		"pf b:c70081a166cb7ff8000000000000 0 - eq:66:cb7ff8000000000000 set:7a:01", // NaN condition
+		"pf absent 1 - - - set:61:01",                    // CREATED from the empty-map seed
+		"pf absent 0 - - - set:61:01",                    // KEY_NOT_FOUND
+		"pf absent 1 81a17801 - - inc:78:02",             // CREATED from a seed
+		"pf absent 1 c1 - - set:61:01",                   // invalid seed → TYPE_MISMATCH
+		"pf absent 1 01 - - set:61:01",                   // non-map seed: SET on a leaf root → TYPE_MISMATCH
+		"pf b:c70081a17801 0 - - - set:79:02",            // PATCHED
+		"pf b:c70081a17801 1 c1 - - set:79:02",           // existing key, invalid seed still rejected
+		"pf b:c70081a17801 0 - - eq:78:02 set:79:02",     // CONDITION_NOT_MET
+		"pf b:c70081a17801 0 - - - inc:78:a161",          // TYPE_MISMATCH
+		"pf b:c70081a17801 0 - - - set:782e:01",          // malformed path → PATH_INVALID
+		"pf b:c70081a17801 0 - - - set:79:",              // ErrInvalidOp (empty value) → PATH_INVALID
+		"pf b:c70081a17801 0 - - - unk:79:01",            // unknown op kind → PATH_INVALID
+		"pf b:c70081a17801 0 - - unk:78:01 set:79:01",    // unknown condition op → PATH_INVALID
+		"pf b:c7008101a17801 0 - - - set:79:02",          // non-string key body → ENCODING_NOT_SUPPORTED
+		"pf b:c70081a178 0 - - - set:79:02",              // truncated body → ENCODING_NOT_SUPPORTED
+		"pf b:81a17801 0 - - - set:79:02",                // no magic prefix → ENCODING_NOT_SUPPORTED
+		"pf b:c7 0 - - - set:79:02",                      // one byte only
+		"pf b:c70181a17801 0 - - - set:79:02",            // wrong second prefix byte
+		"pf other 0 - - - set:79:02",                     // not a ByteArray → TYPE_MISMATCH
+		"pf b:c70081a17801 0 - - - set:79:c1",            // malformed value
+		"pf b:c70081a166cb7ff8000000000000 0 - - eq:66:cb7ff8000000000000 set:7a:01", // NaN condition
+		// PatchFieldsMeta: stamped on success only; Created* only on create; ClearExpiredAt beats SetExpiredAt
+		"pf absent 1 - ua,ub=626f62,ca,cb=616c,exp=1900000000000000000 - set:61:01",   // create with every field
+		"pf b:c70081a17801 0 - ua,ub=626f62,ca,cb=616c,exp=1900000000000000000 - set:79:02", // patch: Created* ignored
+		"pf b:c70081a17801@1800000000000000000 0 - exp=1900000000000000000 - set:79:02",  // slide the TTL forward
+		"pf b:c70081a17801@1800000000000000000 0 - clr - set:79:02",                    // clear the TTL
+		"pf b:c70081a17801@1800000000000000000 0 - clr,exp=1900000000000000000 - set:79:02", // clear wins
+		"pf b:c70081a17801@1800000000000000000 0 - ub=626f62 - del:78:",                 // TTL untouched without exp/clr
+		"pf b:c70081a17801@1800000000000000000 0 - ua,exp=1900000000000000000 eq:78:02 set:79:02", // condition not met: no meta
+		"pf b:c70081a17801@1800000000000000000 0 - ua,clr - inc:78:a161",                // failed op: no meta
+		"pf absent 0 - ua,exp=1900000000000000000 - set:61:01",                          // key not found: nothing created
+		"pf b:c70081a17801 0 - exp=0 - set:79:02",                                       // SetExpiredAt = Unix epoch: stored as 0 (never)
 	} {
 		fmt.Fprintln(w, l)
 	}
@@ -811,7 +835,12 @@ func c13Gen(rng *rand.Rand, tier string, w *bufio.Writer) {
 			}
 			d = c13Tame(d)
 			fmt.Fprintf(w, "parse %s\n", c13H(d))
-			fmt.Fprintf(w, "ap %s %s %s\n", c13H(d), c13Cond(rng, addrs), c13Op(rng, addrs))
+			dop := " " + c13Op(rng, addrs)
+			dverb := "ap"
+			if strings.Contains(dop, " inc:") && (c13HasSpecialFloat(d) || c13OpsSpecialFloat(dop)) {
+				dverb = "apn"
+			}
+			fmt.Fprintf(w, "%s %s %s%s\n", dverb, c13H(d), c13Cond(rng, addrs), dop)
 			continue
 		}
 		fmt.Fprintf(w, "parse %s\n", c13H(body))
@@ -826,7 +855,13 @@ func c13Gen(rng *rand.Rand, tier string, w *bufio.Writer) {
 			for j := 0; j < nops; j++ {
 				sb.WriteString(" " + c13Op(rng, addrs))
 			}
-			fmt.Fprintf(w, "ap %s %s%s\n", c13H(body), c13Cond(rng, addrs), sb.String())
+			// an INC that may involve NaN / ±Inf yields a NaN whose payload bits are platform-defined
+			// (amd64 SSE2 here): such lines are `apn` — both sides print NaN leaves canonically
+			verb := "ap"
+			if strings.Contains(sb.String(), " inc:") && (c13HasSpecialFloat(body) || c13OpsSpecialFloat(sb.String())) {
+				verb = "apn"
+			}
+			fmt.Fprintf(w, "%s %s %s%s\n", verb, c13H(body), c13Cond(rng, addrs), sb.String())
 		}
 		if c%pfEvery == 0 {
 			stored := "absent"
@@ -847,9 +882,172 @@ func c13Gen(rng *rand.Rand, tier string, w *bufio.Writer) {
 			} else if rng.Intn(3) == 0 {
 				seed = c13H(body)
 			}
-			fmt.Fprintf(w, "pf %s %d %s %s %s\n", stored, rng.Intn(2), seed, c13Cond(rng, addrs), c13Op(rng, addrs))
+			meta := "-"
+			if rng.Intn(2) == 0 {
+				var ms []string
+				for _, m := range []string{"ua", "ub=" + hex.EncodeToString(c13Bytes(rng, 1+rng.Intn(3))), "ca",
+					"cb=" + hex.EncodeToString(c13Bytes(rng, 1+rng.Intn(3))), fmt.Sprintf("exp=%d", 1700000000000000000+rng.Int63n(1e18)), "clr"} {
+					if rng.Intn(3) == 0 {
+						ms = append(ms, m)
+					}
+				}
+				if len(ms) > 0 {
+					meta = strings.Join(ms, ",")
+				}
+			}
+			if strings.HasPrefix(stored, "b:") && rng.Intn(3) == 0 {
+				stored += fmt.Sprintf("@%d", 1700000000000000000+rng.Int63n(1e18))
+			}
+			fmt.Fprintf(w, "pf %s %d %s %s %s %s\n", stored, rng.Intn(2), seed, meta, c13Cond(rng, addrs), c13Op(rng, addrs))
 		}
 	}
+}
+
+// c13Special: is the 4/8-byte big-endian float pattern NaN or ±Inf (exponent all ones)?
+func c13Special(p []byte) bool {
+	if len(p) == 4 {
+		return p[0]&0x7f == 0x7f && p[1]&0x80 == 0x80
+	}
+	return len(p) == 8 && p[0]&0x7f == 0x7f && p[1]&0xf0 == 0xf0
+}
+
+// c13Scan walks one msgpack value structurally (no allocation by declared counts) and calls
+// leaf(code offset) for every float32/float64 leaf it fully contains; it stops silently at the
+// first malformed or truncated item.  The same walk is `canonNaN` in lean/Driver/C13.lean.
+func c13Scan(b []byte, float func(off, n int)) {
+	pending, i := 1, 0
+	for pending > 0 && i < len(b) {
+		c := b[i]
+		pending--
+		fixed, lenp, ext, count := -1, 0, 0, -1
+		switch {
+		case c <= 0x7f || c >= 0xe0 || c == 0xc0 || c == 0xc2 || c == 0xc3:
+			fixed = 0
+		case c >= 0x80 && c <= 0x8f:
+			pending += 2 * int(c-0x80)
+			i++
+			continue
+		case c >= 0x90 && c <= 0x9f:
+			pending += int(c - 0x90)
+			i++
+			continue
+		case c >= 0xa0 && c <= 0xbf:
+			fixed = int(c - 0xa0)
+		case c == 0xc1:
+			return
+		case c == 0xca:
+			fixed = 4
+		case c == 0xcb:
+			fixed = 8
+		case c == 0xcc || c == 0xd0:
+			fixed = 1
+		case c == 0xcd || c == 0xd1:
+			fixed = 2
+		case c == 0xce || c == 0xd2:
+			fixed = 4
+		case c == 0xcf || c == 0xd3:
+			fixed = 8
+		case c >= 0xd4 && c <= 0xd8:
+			fixed = 1 + (1 << uint(c-0xd4))
+		case c == 0xc4 || c == 0xd9:
+			lenp = 1
+		case c == 0xc5 || c == 0xda:
+			lenp = 2
+		case c == 0xc6 || c == 0xdb:
+			lenp = 4
+		case c == 0xc7:
+			lenp, ext = 1, 1
+		case c == 0xc8:
+			lenp, ext = 2, 1
+		case c == 0xc9:
+			lenp, ext = 4, 1
+		case c == 0xdc || c == 0xde:
+			count = 2
+		case c == 0xdd || c == 0xdf:
+			count = 4
+		}
+		switch {
+		case fixed >= 0:
+			if i+1+fixed > len(b) {
+				return
+			}
+			if c == 0xca || c == 0xcb {
+				float(i, fixed)
+			}
+			i += 1 + fixed
+		case lenp > 0:
+			if i+1+lenp > len(b) {
+				return
+			}
+			m := 0
+			for _, x := range b[i+1 : i+1+lenp] {
+				m = m<<8 | int(x)
+			}
+			if i+1+lenp+m+ext > len(b) {
+				return
+			}
+			i += 1 + lenp + m + ext
+		default:
+			if i+1+count > len(b) {
+				return
+			}
+			m := 0
+			for _, x := range b[i+1 : i+1+count] {
+				m = m<<8 | int(x)
+			}
+			if c == 0xde || c == 0xdf {
+				m *= 2
+			}
+			pending += m
+			i += 1 + count
+		}
+	}
+}
+
+func c13HasSpecialFloat(b []byte) bool {
+	found := false
+	c13Scan(b, func(off, n int) {
+		if c13Special(b[off+1 : off+1+n]) {
+			found = true
+		}
+	})
+	return found
+}
+
+// any op value in the (already rendered) op list that contains a NaN / ±Inf float
+func c13OpsSpecialFloat(ops string) bool {
+	for _, tok := range strings.Fields(ops) {
+		p := strings.Split(tok, ":")
+		if len(p) == 3 && c13HasSpecialFloat(c13Unhex(p[2])) {
+			return true
+		}
+	}
+	return false
+}
+
+// c13CanonNaN rewrites every NaN float leaf to the canonical quiet NaN (7fc00000 / 7ff8000000000000)
+func c13CanonNaN(b []byte) []byte {
+	out := append([]byte(nil), b...)
+	c13Scan(b, func(off, n int) {
+		p := b[off+1 : off+1+n]
+		isNaN := false
+		if n == 4 {
+			isNaN = p[0]&0x7f == 0x7f && p[1]&0x80 == 0x80 && (p[1]&0x7f != 0 || p[2] != 0 || p[3] != 0)
+		} else {
+			isNaN = p[0]&0x7f == 0x7f && p[1]&0xf0 == 0xf0 && (p[1]&0x0f != 0 || p[2] != 0 || p[3] != 0 || p[4] != 0 || p[5] != 0 || p[6] != 0 || p[7] != 0)
+		}
+		if isNaN {
+			for k := range out[off+1 : off+1+n] {
+				out[off+1+k] = 0
+			}
+			if n == 4 {
+				out[off+1], out[off+2] = 0x7f, 0xc0
+			} else {
+				out[off+1], out[off+2] = 0x7f, 0xf8
+			}
+		}
+	})
+	return out
 }
 
 // c13Tame clears the high bytes of any 32-bit count/length field that a random byte flip may
@@ -988,15 +1186,48 @@ func (p *c13PF) swamp() (swamp.Swamp, error) {
 	return sw, nil
 }
 
+// pf STORED CREATE SEED META COND OP…
+//   STORED = absent | other | b:HEX[@EXPNANOS]          (treasure under the key before the call)
+//   META   = - | comma list of  ua  ub=HEX  ca  cb=HEX  exp=NANOS  clr      (PatchFieldsMeta)
+// reply:   st=N STORED wf=0/1 new=HEX|- exp=NANOS mat=0/1 mby=HEX|- cat=0/1 cby=HEX|-
 func (p *c13PF) run(f []string) string {
 	sw, err := p.swamp()
 	if err != nil {
 		return "rig-error " + err.Error()
 	}
-	ops, ok1 := c13ParseOps(f[5:])
-	cond, ok2 := c13ParseCond(f[4])
+	if len(f) < 6 {
+		return "bad-op"
+	}
+	ops, ok1 := c13ParseOps(f[6:])
+	cond, ok2 := c13ParseCond(f[5])
 	if !ok1 || !ok2 {
 		return "bad-op"
+	}
+	var meta *swamp.PatchFieldsMeta
+	if f[4] != "-" {
+		meta = &swamp.PatchFieldsMeta{}
+		for _, tok := range strings.Split(f[4], ",") {
+			switch {
+			case tok == "ua":
+				meta.SetUpdatedAt = true
+			case tok == "ca":
+				meta.SetCreatedAt = true
+			case tok == "clr":
+				meta.ClearExpiredAt = true
+			case strings.HasPrefix(tok, "ub="):
+				meta.SetUpdatedBy = string(c13Unhex(tok[3:]))
+			case strings.HasPrefix(tok, "cb="):
+				meta.SetCreatedBy = string(c13Unhex(tok[3:]))
+			case strings.HasPrefix(tok, "exp="):
+				n, perr := strconv.ParseInt(tok[4:], 10, 64)
+				if perr != nil {
+					return "bad-op"
+				}
+				meta.SetExpiredAt = time.Unix(0, n)
+			default:
+				return "bad-op"
+			}
+		}
 	}
 	p.n++
 	key := fmt.Sprintf("k%d", p.n)
@@ -1009,19 +1240,29 @@ func (p *c13PF) run(f []string) string {
 		t.Save(g)
 		t.ReleaseTreasureGuard(g)
 	case strings.HasPrefix(f[1], "b:"):
+		spec, exp := f[1][2:], int64(0)
+		if i := strings.IndexByte(spec, '@'); i >= 0 {
+			exp, _ = strconv.ParseInt(spec[i+1:], 10, 64)
+			spec = spec[:i]
+		}
 		t := sw.CreateTreasure(key)
 		g := t.StartTreasureGuard(true)
-		t.SetContentByteArray(g, c13Unhex(f[1][2:]))
+		t.SetContentByteArray(g, c13Unhex(spec))
+		if exp != 0 {
+			t.SetExpirationTime(g, time.Unix(0, exp))
+		}
 		t.Save(g)
 		t.ReleaseTreasureGuard(g)
 	default:
 		return "bad-op"
 	}
-	res, err := sw.PatchFields(key, ops, cond, swamp.PatchFieldsOptions{CreateIfNotExist: f[2] == "1", InitialMsgpackOnCreate: c13Unhex(f[3])})
+	res, err := sw.PatchFields(key, ops, cond, swamp.PatchFieldsOptions{CreateIfNotExist: f[2] == "1",
+		InitialMsgpackOnCreate: c13Unhex(f[3]), Meta: meta})
 	if err != nil {
 		return "error " + err.Error()
 	}
 	stored, wf := "absent", 0
+	exp, mat, cat, mby, cby := int64(0), 0, 0, "-", "-"
 	if t, err := sw.GetTreasure(key); err == nil && t != nil {
 		switch t.GetContentType() {
 		case treasure.ContentTypeVoid:
@@ -1036,12 +1277,20 @@ func (p *c13PF) run(f []string) string {
 		default:
 			stored = "other"
 		}
+		exp = t.GetExpirationTime()
+		if t.GetModifiedAt() != 0 {
+			mat = 1
+		}
+		if t.GetCreatedAt() != 0 {
+			cat = 1
+		}
+		mby, cby = c13H([]byte(t.GetModifiedBy())), c13H([]byte(t.GetCreatedBy()))
 	}
 	echo := "-"
 	if res.NewMsgpack != nil {
 		echo = c13H(res.NewMsgpack)
 	}
-	return fmt.Sprintf("st=%d %s wf=%d new=%s", res.Status, stored, wf, echo)
+	return fmt.Sprintf("st=%d %s wf=%d new=%s exp=%d mat=%d mby=%s cat=%d cby=%s", res.Status, stored, wf, echo, exp, mat, mby, cat, cby)
 }
 
 func c13Run(in *bufio.Scanner, w *bufio.Writer) {
@@ -1074,7 +1323,7 @@ func c13Run(in *bufio.Scanner, w *bufio.Writer) {
 				var sb strings.Builder
 				c13Dump(s, blob, &sb)
 				fmt.Fprintln(w, "ok "+sb.String())
-			case f[0] == "ap" && len(f) >= 3:
+			case (f[0] == "ap" || f[0] == "apn") && len(f) >= 3:
 				ops, ok1 := c13ParseOps(f[3:])
 				cond, ok2 := c13ParseCond(f[2])
 				if !ok1 || !ok2 {
@@ -1100,8 +1349,11 @@ func c13Run(in *bufio.Scanner, w *bufio.Writer) {
 				if _, perr := msgpackpatch.Parse(out); perr == nil {
 					wf = 1
 				}
+				if f[0] == "apn" {
+					out = c13CanonNaN(out)
+				}
 				fmt.Fprintf(w, "out %s wf=%d\n", c13H(out), wf)
-			case f[0] == "pf" && len(f) >= 5:
+			case f[0] == "pf" && len(f) >= 6:
 				fmt.Fprintln(w, pf.run(f))
 			default:
 				fmt.Fprintln(w, "bad-op")
